@@ -151,6 +151,164 @@ func GenLeaf(r *hx.Rng, kind string) []byte {
 			body = Cat(body, U32(r32(r)), U32(r32(r)))
 		}
 		return Box(kind, body)
+	case "stsc":
+		n := r.Intn(6)
+		body := Cat(vf(0, 0), U32(uint32(n)))
+		fc := uint32(1)
+		for i := 0; i < n; i++ {
+			sdi := uint32(r.Pick(1, 1, 1, 2, 3))
+			if r.Intn(12) == 0 {
+				sdi = 0
+			}
+			body = Cat(body, U32(fc), U32(uint32(r.Range(1, 9))), U32(sdi))
+			fc += uint32(r.Range(1, 4))
+		}
+		return Box(kind, body)
+	case "stsz":
+		if r.Bool() {
+			return Box(kind, Cat(vf(0, 0), U32(uint32(r.Range(1, 900))), U32(r32(r))))
+		}
+		n := r.Intn(6)
+		body := Cat(vf(0, 0), U32(0), U32(uint32(n)))
+		for i := 0; i < n; i++ {
+			body = Cat(body, U32(r32(r)))
+		}
+		return Box(kind, body)
+	case "stco", "stss":
+		n := r.Intn(6)
+		body := Cat(vf(0, 0), U32(uint32(n)))
+		for i := 0; i < n; i++ {
+			body = Cat(body, U32(r32(r)))
+		}
+		return Box(kind, body)
+	case "co64":
+		n := r.Intn(5)
+		body := Cat(vf(0, 0), U32(uint32(n)))
+		for i := 0; i < n; i++ {
+			body = Cat(body, U64(r64(r)))
+		}
+		return Box(kind, body)
+	case "sdtp":
+		return Box(kind, Cat(vf(0, 0), r.Bytes(r.Intn(9), nil)))
+	case "ctts":
+		n := r.Intn(6)
+		body := Cat(vf(byte(r.Intn(2)), 0), U32(uint32(n)))
+		for i := 0; i < n; i++ {
+			body = Cat(body, U32(r32(r)), U32(r32(r)))
+		}
+		return Box(kind, body)
+	case "elst":
+		n := r.Intn(4)
+		v := byte(r.Intn(2))
+		body := Cat(vf(v, 0), U32(uint32(n)))
+		for i := 0; i < n; i++ {
+			if v == 1 {
+				body = Cat(body, U64(r64(r)), U64(r64(r)), U16(uint16(r.U64())), U16(uint16(r.U64())))
+			} else {
+				body = Cat(body, U32(r32(r)), U32(r32(r)), U16(uint16(r.U64())), U16(uint16(r.U64())))
+			}
+		}
+		return Box(kind, body)
+	case "saiz":
+		fl := uint32(r.Intn(2))
+		body := vf(0, fl)
+		if fl&1 != 0 {
+			body = Cat(body, []byte("cenc"), U32(r32(r)))
+		}
+		n := r.Intn(6)
+		if r.Bool() {
+			body = Cat(body, []byte{byte(r.Range(1, 255))}, U32(uint32(n)))
+		} else {
+			body = Cat(body, []byte{0}, U32(uint32(n)), r.Bytes(n, nil))
+		}
+		return Box(kind, body)
+	case "saio":
+		fl := uint32(r.Intn(2))
+		v := byte(r.Intn(2))
+		body := vf(v, fl)
+		if fl&1 != 0 {
+			body = Cat(body, []byte("cenc"), U32(r32(r)))
+		}
+		n := r.Intn(4)
+		body = Cat(body, U32(uint32(n)))
+		for i := 0; i < n; i++ {
+			if v == 0 {
+				body = Cat(body, U32(r32(r)))
+			} else {
+				body = Cat(body, U64(r64(r)))
+			}
+		}
+		return Box(kind, body)
+	case "sbgp":
+		v := byte(r.Intn(2))
+		body := Cat(vf(v, 0), []byte("roll"))
+		if v == 1 {
+			body = Cat(body, U32(r32(r)))
+		}
+		n := r.Intn(4)
+		body = Cat(body, U32(uint32(n)))
+		for i := 0; i < n; i++ {
+			body = Cat(body, U32(r32(r)), U32(r32(r)))
+		}
+		return Box(kind, body)
+	case "prft":
+		if r.Bool() {
+			return Box(kind, Cat(vf(0, 24), U32(1), U64(r64(r)), U32(r32(r))))
+		}
+		return Box(kind, Cat(vf(1, 24), U32(1), U64(r64(r)), U64(r64(r))))
+	case "tenc":
+		v := byte(r.Intn(2))
+		isp, ivs := byte(r.Intn(2)), byte(r.Pick(0, 8, 16))
+		body := Cat(vf(v, 0), []byte{0})
+		if v == 0 {
+			body = append(body, 0)
+		} else {
+			body = append(body, byte(r.U64()))
+		}
+		body = Cat(body, []byte{isp, ivs}, r.Bytes(16, nil))
+		if isp == 1 && ivs == 0 {
+			n := r.Pick(0, 8, 16)
+			body = Cat(body, []byte{byte(n)}, r.Bytes(n, nil))
+		}
+		return Box(kind, body)
+	case "frma":
+		return Box(kind, []byte([]string{"avc1", "mp4a", "hvc1"}[r.Intn(3)]))
+	case "vmhd":
+		return Box(kind, Cat(vf(0, 1), U16(uint16(r.U64())), U16(uint16(r.U64())), U16(uint16(r.U64())), U16(uint16(r.U64()))))
+	case "smhd":
+		return Box(kind, Cat(vf(0, 0), U16(uint16(r.U64())), U16(0)))
+	case "nmhd", "sthd":
+		return Box(kind, vf(0, uint32(r.Intn(2))))
+	case "mfro":
+		return Box(kind, Cat(vf(0, 0), U32(r32(r))))
+	case "mehd":
+		if r.Bool() {
+			return Box(kind, Cat(vf(0, 0), U32(r32(r))))
+		}
+		return Box(kind, Cat(vf(1, 0), U64(r64(r))))
+	case "tfra":
+		v := byte(r.Intn(2))
+		lt, lr, ls := r.Intn(4), r.Intn(4), r.Intn(4)
+		n := r.Intn(4)
+		body := Cat(vf(v, 0), U32(1), U32(uint32(lt<<4|lr<<2|ls)), U32(uint32(n)))
+		for i := 0; i < n; i++ {
+			if v == 1 {
+				body = Cat(body, U64(r64(r)), U64(r64(r)))
+			} else {
+				body = Cat(body, U32(r32(r)), U32(r32(r)))
+			}
+			body = Cat(body, r.Bytes(lt+1, nil), r.Bytes(lr+1, nil), r.Bytes(ls+1, nil))
+		}
+		return Box(kind, body)
+	case "pssh":
+		v := byte(r.Intn(2))
+		body := Cat(vf(v, 0), r.Bytes(16, nil))
+		if v > 0 {
+			n := r.Intn(3)
+			body = Cat(body, U32(uint32(n)), r.Bytes(16*n, nil))
+		}
+		n := r.Intn(12)
+		return Box(kind, Cat(body, U32(uint32(n)), r.Bytes(n, nil)))
 	}
 	return Box("zzzz", r.Bytes(r.Intn(12), nil))
 }
@@ -179,7 +337,9 @@ func GenTree(r *hx.Rng) []byte {
 	}
 	trak := func() []byte {
 		return Box("trak", Cat(GenLeaf(r, "tkhd"), extra(),
-			Box("mdia", Cat(GenLeaf(r, "mdhd"), GenLeaf(r, "hdlr"), Box("minf", Cat(Box("dinf", nil), Box("stbl", GenLeaf(r, "stts"))))))))
+			Box("mdia", Cat(GenLeaf(r, "mdhd"), GenLeaf(r, "hdlr"), Box("minf", Cat(GenLeaf(r, []string{"vmhd", "smhd", "nmhd", "sthd"}[r.Intn(4)]), Box("dinf", nil),
+				Box("stbl", Cat(GenLeaf(r, "stts"), GenLeaf(r, "ctts"), GenLeaf(r, "stsc"), GenLeaf(r, "stsz"),
+					GenLeaf(r, []string{"stco", "co64"}[r.Intn(2)]), GenLeaf(r, "stss"), GenLeaf(r, "sdtp")))))))))
 	}
 	mvex := Box("mvex", Cat(GenLeaf(r, "trex"), GenLeaf(r, "trex")))
 	switch r.Intn(4) {
@@ -195,7 +355,9 @@ func GenTree(r *hx.Rng) []byte {
 
 // ModelledLeaves lists the leaf kinds GenLeaf knows.
 var GenKinds = []string{"ftyp", "styp", "free", "skip", "mdat", "mfhd", "tfhd", "tfdt", "trun", "mvhd", "tkhd", "sidx",
-	"trex", "mdhd", "hdlr", "stts"}
+	"trex", "mdhd", "hdlr", "stts",
+	"stsc", "stsz", "stco", "stss", "co64", "sdtp", "ctts", "elst", "saiz", "saio", "sbgp", "prft", "tenc", "frma", "vmhd",
+	"smhd", "nmhd", "sthd", "mfro", "mehd", "tfra", "pssh"}
 
 // Exhaustive returns well-formed boxes covering EVERY combination of the optional-field flag bits of the
 // boxes that have them (trun: 6 bits x version 0/1 x 0,1,3 samples; tfhd: 7 bits; tfdt, sidx, mvhd, tkhd,
